@@ -436,6 +436,13 @@ SMARTS = ['[C;D1]-[C;!R]=O', '[#6]-[#8]', '[O,N;D1]', 'c:c', '[C;D3](=O)[O;D1]',
 # correspondence (reference path), the brute-force search (reference and default path) and the RDKit comparison
 LIST_SMARTS = ['[Cl,Br]-[#6]', '[Si,P]-[#6]', '[Br,I]', '[Cl,F]-[#6]', '[Se,Sn]', '[Na,K]', '[Si,Se;D2]', '[#6]-[Cl,Br,I]']
 HETERO_TARGETS = ['ClCCBr', 'OB(O)CCBr', 'C[Si](C)(C)CSC', 'FC(Cl)CN', 'C[Se]CSN', 'CCO', 'IC(Br)CP']
+# graph cycles that are NOT rings for the library: a cycle closed through a special / coordination bond (order 8, `~`) is ignored by ring
+# perception, so every bond on it has in_ring False.  Ring-CLOSING queries (closure bond without ring mark, with @, with !@, the special bond
+# itself as closure) and open queries on such targets, next to ordinary rings: every query x every target on the reference path, on the
+# default (accelerated) path and in the correspondence
+CHELATE_TARGETS = ['[Cu]1~OCCN~1', '[Cu]12(~OC(=O)CN~1)~OC(=O)CN~2', '[Zn]1~NCCN~1', 'C1CC[Fe]~1', '[Cu]1~OCCO~1.CC1CCCCC1', 'O1CC[Ni]~1~OCC', 'C1CC[Fe]~1C2CC2']
+CHELATE_QUERIES = ['[Cu]1~OCCN~1', 'N1~[Cu]~OCC1', 'N~[Cu]~O', '[A]1[A][A][A]~1', '[A]~1[A][A][A]1', '[#6]1[#6][#8]~[A]~[#7]1', '[#6]1[#6][#6]~[A]-1',
+                   '[#6]1[#6][#6]~;!@[A]-;!@1', '[#6]1[#6][#6]~[A]-;@1', '[A]1-;!@[A][A]~[A]1', '[#6]-;!@[#6]', '[A]~;!@[A]~;!@[A]', '[A]1[A][A]1', '[#7]1[#6][#6][#7]~[A]~1']
 # ring sizes the bit masks of the accelerated matcher cannot express (above 65): a query asking for such a ring, and a target whose only ring
 # is that large (the library sends both to the reference path; the DEFAULT call must still return exactly the embeddings)
 BIG_RING = 'C1' + 'C' * 64 + 'C1'                        # a 66-membered carbocycle
@@ -713,6 +720,18 @@ def corr_accelerated(ck, cs):
             cs.add(tab_model_expr(q, t, flt, scope, got), ('QueryContainer.get_mapping (accelerated path)', s_, ttxt, flt, scope))
             ck.case(('accel', s_, ttxt, flt, None if scope is None else tuple(scope)), nontrivial=bool(got))
             ck.count(f'accelerated:corr:{"hit" if got else "miss"}')
+    for ttxt in CHELATE_TARGETS:                           # cycles through special bonds: every query, no sampling
+        t = smiles(ttxt)
+        for s_ in CHELATE_QUERIES:
+            q = smarts(s_)
+            flt = rng.random() < .3
+            got, err = drain_partial(itertools.islice(q.get_mapping(t, automorphism_filter=flt), 121))
+            if err is not None or len(got) > 120:
+                ck.count('accelerated:skipped')
+                continue
+            cs.add(tab_model_expr(q, t, flt, None, got), ('QueryContainer.get_mapping (accelerated path)', s_, ttxt, flt, None))
+            ck.case(('accel', s_, ttxt, flt, None), nontrivial=bool(got))
+            ck.count(f'accelerated:corr:special-bond-cycle:{"hit" if got else "miss"}')
 
 
 def corr_automorphism(ck, cs):
@@ -1740,6 +1759,7 @@ def search_accelerated(ck):
     targets = [(x, smiles(x)) for x in POLY_TARGETS]
     lists = [(smarts(s), smiles(x), s, x) for s in LIST_SMARTS for x in HETERO_TARGETS]     # the bit-mask compiler reads the list's atomic numbers too
     lists += [(smarts(s), smiles(x), s, x) for s, x in BIG_RING_PAIRS]
+    lists += [(smarts(s), smiles(x), s, x) for s in CHELATE_QUERIES for x in CHELATE_TARGETS]
     pool = [m for m in mol_pool(ck, 30 if ck.tier == 'quick' else 300, 24, 'c07-accel') if len(m.sssr) >= 2][:10 if ck.tier == 'quick' else 100]
     targets += [(str(m), m) for m in pool]
     pre = 'import iso_pyx; iso_pyx.inject(); from chython import smiles, smarts; '
@@ -1997,6 +2017,10 @@ def search(ck):
     for ttxt in HETERO_TARGETS:
         for s in LIST_SMARTS:
             search_pair(ck, smarts(s), smiles(ttxt), rng, s, ttxt, query=True)
+            npairs += 1
+    for ttxt in CHELATE_TARGETS:
+        for s in CHELATE_QUERIES:
+            search_pair(ck, smarts(s), smiles(ttxt), rng, s, ttxt, query=True, scopes=[])
             npairs += 1
     search_int(ck, 250 if ck.tier == 'quick' else 4000)
     search_lazy_product(ck, 200 if ck.tier == 'quick' else 3000)
